@@ -163,6 +163,8 @@ func runC19(o *Out) {
 			gts.Feature{Key: k, Loc: locs[(ki+1)%len(locs)], Props: gts.Props{{"gene", "abc"}}},
 			gts.Feature{Key: k, Loc: locs[(ki+2)%len(locs)], Props: gts.Props{{"gene", "a", "x y"}, {"note", ""}}},
 			gts.Feature{Key: k, Loc: locs[(ki+3)%len(locs)], Props: gts.Props{{"note", "gene"}, {"product", "abc", "abc"}, {"gene", "zzz"}, {"gene", "abc"}}},
+			// a value that occurs only in the SECOND entry carrying its name
+			gts.Feature{Key: k, Loc: locs[ki%len(locs)], Props: gts.Props{{"note", "first"}, {"gene", "g1"}, {"note", "zzz", "x y"}}},
 		)
 	}
 	// selector strings assembled from the alphabets and a regexp fragment
